@@ -134,7 +134,11 @@ def load_known():
 def run_property(prop, tier, repo=None, write=True):
     t0 = time.time()
     ctx = Ctx(tier, repo)
-    mod = importlib.import_module("rules." + prop)
+    try:
+        mod = importlib.import_module("rules." + prop)
+    except ModuleNotFoundError as e:
+        sys.stderr.write("INFRA: no rule module for %s (%s)\n" % (prop, e))
+        sys.exit(2)
     rep = Report(prop)
     mod.run(ctx, rep)
     known = load_known()
@@ -151,7 +155,7 @@ def run_property(prop, tier, repo=None, write=True):
     wall = time.time() - t0
     if not write:
         return rep, viol, kf
-    evdir = os.path.join(VERIF, "evidence")
+    evdir = os.environ.get("VERIF_EVIDENCE_DIR") or os.path.join(VERIF, "evidence")
     os.makedirs(os.path.join(evdir, "replay"), exist_ok=True)
     # remove stale replay files of this property
     for fn in os.listdir(os.path.join(evdir, "replay")):
